@@ -18,13 +18,38 @@
                hierarchy are of several algorithms: the anchor's key, the key of an intermediate certificate and the
                key that signs the packet each have their own.
      W.sch, W.q   labels for the executor (which LVS text materialises the world) and witnesses
+     W.alias   HOW A LINK NAMES ITS SIGNER. A key locator carries a Name. Besides the name of a certificate it may be
+               - the FULL name of a certificate packet: certificate name + implicit SHA-256 digest of one packet. It names
+                 exactly that packet: an Interest for it is satisfied by that packet only. Two packets may have the same
+                 certificate name (a certificate issued again under the same name - for the same or another key);
+               - the KEY name (certificate name without issuer and version): no certificate has that name, the schema's
+                 certificate rules do not match it.
+               W.alias: name -> [base (the certificate name it extends / shortens), pk (the packet a full name pins: base =
+               the packet served under the plain name, another id = another packet of that name, retrievable iff it has
+               an entry in W.certs), kind ("full" | "key")]. Names outside DOMAIN W.alias are plain.
+               Every such name is a name of its own for the validator: it is what is compared with the anchor's name, what
+               the key storage is asked for, what is requested from the network. INTERPRETATION (least demanding reading of
+               "names the next as its key"): the trust anchor is named by its certificate name only; a key locator that
+               carries the anchor's full name refers to a certificate to be fetched and validated like any other.
+               The schema's check ignores a trailing digest component: a full name has the shape of its base.
+     W.fp      certificate name -> FreshnessPeriod of that certificate packet: "pos" (positive), "zero", "none" (no such
+               field); a name that is not listed: "pos". Certificates are fetched with MustBeFresh; a packet the network
+               DELIVERS satisfies the Interest whatever its FreshnessPeriod is (freshness is the business of caches on the
+               way), so no clause below reads W.fp: like W.alg it only tells the executor what to materialise.
+   Key storage (the `storage` argument; inst[v].store, chosen by NewValidator from StoreChoice(v)):
+     "default" (no argument), "memory" (the library's MemoryKeyStorage), "empty" (the library's EmptyKeyStorage: keeps
+     nothing), "app" (an application-supplied mapping, unbounded), "fifo1" / "fifo2" (application-supplied, keeps the 1 / 2
+     entries saved last). An application-supplied storage may lose what it holds at any time (Forget). cache[v] is what the
+     storage of v holds, oldest first. The storage is a CACHE of validated keys: neither ChainExists nor the anchor depends
+     on it - only which certificates are requested again does.
    Crypto is abstract: a signature verifies under a certificate iff sig = that certificate's key - WHATEVER the
    algorithm of that key is. No clause of ChainExists / GoodAnchor reads W.alg: the verdict over a hierarchy is the
    same for every assignment of algorithms to its keys (anchor, intermediate certificates, packet signer). The only
    reader of W.alg is the deviation Ed25519Unsupported. The executor materialises every key with its algorithm
    (curve / modulus size), so the encodings that depend on it (length forms of the DER signature, of the
    SignatureValue and of the certificate's Content) occur in every role.
-   Names identify certificates (one certificate is served per name).
+   Names identify certificates (one certificate packet is served per name; a plain name and the full name of the packet
+   served under it are two names of one packet: SameP).
 
    Implementation shape: one validator instance per application/face; a validation is a stack of
    elements (packet, then the certificates fetched for it); per element: CheckSchema (validate_name),
@@ -44,13 +69,14 @@ CONSTANTS Inst,          \* validator instances, e.g. {"v1","v2"}
           MaxHeal,       \* number of Heal steps (a certificate that could not be fetched becomes retrievable)
           Allowed, Forced,
           WorldSet,      \* the worlds Init may choose (MCWorlds(MaxDepth) or the world of a trace)
-          AnchorChoice(_) \* instance -> set of anchor names NewValidator may give it
+          AnchorChoice(_), \* instance -> set of anchor names NewValidator may give it
+          StoreChoice(_)  \* instance -> set of key storage kinds NewValidator may give it
 
 AllDevs == {"SharedCache", "LoopRefetch", "Ed25519Unsupported"}
 
 VARIABLES W,        \* the world
           inst,     \* instance -> [k: "none"|"ok"|"refused", anchor]
-          cache,    \* instance -> set of certificate names whose key is cached
+          cache,    \* instance -> sequence (oldest first, no duplicates) of the names whose key its storage holds
           val,      \* slot -> validation in progress [k |-> "none"] or
                     \*   [k |-> "run", p, stack (sequence of names, last = element being resolved), pc, vk]
           wire,     \* application -> sequence of certificate names requested with Interests on its face
@@ -68,6 +94,22 @@ IsPkt(n) == n \in DOMAIN W.pkts
 El(n) == IF IsPkt(n) THEN [kl |-> W.pkts[n].kl, sig |-> W.pkts[n].sig]
                      ELSE [kl |-> W.certs[n].kl, sig |-> W.certs[n].sig]
 Serv(n) == IF n \in DOMAIN W.certs THEN W.certs[n].serv ELSE "absent"
+\* names and packets (W.alias)
+Base(n) == IF n \in DOMAIN W.alias THEN W.alias[n].base ELSE n
+Pk(n) == IF n \in DOMAIN W.alias THEN W.alias[n].pk ELSE n
+SameP(m, n) == Base(m) = Base(n) /\ Pk(m) = Pk(n)                       \* two names of one packet
+\* the pending Interests (by name) that the packet delivered for request n satisfies: those for its plain name and
+\* those for its own full name
+Sat(n) == {m \in DOMAIN W.shape : Base(m) = Base(n) /\ (m = Base(m) \/ Pk(m) = Pk(n))}
+\* key storage
+StoreKinds == {"default", "memory", "empty", "app", "fifo1", "fifo2"}
+AppStores == {"app", "fifo1", "fifo2"}                                    \* supplied (and handled) by the application
+Cap(st) == IF st = "empty" THEN 0 ELSE IF st = "fifo1" THEN 1 ELSE IF st = "fifo2" THEN 2 ELSE 99
+CacheSet(v) == {cache[v][i] : i \in 1..Len(cache[v])}
+Saved(v, n) == IF n \in CacheSet(v) THEN cache[v]
+               ELSE LET s == Append(cache[v], n)
+                        c == Cap(inst[v].store) IN
+                      IF Len(s) > c THEN SubSeq(s, Len(s) - c + 1, Len(s)) ELSE s
 SchemaOk(a, b) == <<W.shape[a], W.shape[b]>> \in W.schema
 \* the anchor's name must match ALL roots of trust of the schema (rules that sign and are not signed);
 \* W.covers: shape -> roots of trust that names of that shape match
@@ -127,8 +169,8 @@ NoDev(d, app) == /\ ~(app /\ (d \in dev \/ d \in Forced))
 -----------------------------------------------------------------------------
 InitWith(w) ==
   /\ W = w
-  /\ inst = [v \in Inst |-> [k |-> "none", anchor |-> "none", good |-> FALSE]]
-  /\ cache = [v \in Inst |-> {}]
+  /\ inst = [v \in Inst |-> [k |-> "none", anchor |-> "none", good |-> FALSE, store |-> "none"]]
+  /\ cache = [v \in Inst |-> <<>>]
   /\ val = [s \in Slots |-> NoVal]
   /\ wire = [a \in Apps |-> <<>>]
   /\ out = <<>> /\ nval = 0 /\ dev = {} /\ nodev = {} /\ bad = {}
@@ -138,14 +180,14 @@ Busy(v) == val[v].k = "run" /\ val[v].pc \notin {"fetching", "diverged"}
 Quiescent == \A v \in Slots : ~Busy(v)
 
 (* external stimuli *)
-\* lvs_validator(checker, app, anchor): built, or refused with ValueError
-NewValidator(v, a) ==
-  /\ Quiescent /\ inst[v].k = "none" /\ a \in AnchorChoice(v) /\ a \in DOMAIN W.certs
+\* lvs_validator(checker, app, anchor[, storage]): built, or refused with ValueError
+NewValidator(v, a, st) ==
+  /\ Quiescent /\ inst[v].k = "none" /\ a \in AnchorChoice(v) /\ a \in DOMAIN W.certs /\ st \in StoreChoice(v)
   /\ \/ /\ NoDev("Ed25519Unsupported", GoodAnchor(a) /\ IsEd(W.certs[a].key))
-        /\ inst' = [inst EXCEPT ![v] = [k |-> IF GoodAnchor(a) THEN "ok" ELSE "refused", anchor |-> a, good |-> GoodAnchor(a)]]
+        /\ inst' = [inst EXCEPT ![v] = [k |-> IF GoodAnchor(a) THEN "ok" ELSE "refused", anchor |-> a, good |-> GoodAnchor(a), store |-> st]]
      \/ \* DEVIATION: a self-signature made with an Ed25519 key is never accepted, the anchor is refused
         /\ Dev("Ed25519Unsupported", GoodAnchor(a) /\ IsEd(W.certs[a].key))
-        /\ inst' = [inst EXCEPT ![v] = [k |-> "refused", anchor |-> a, good |-> TRUE]]
+        /\ inst' = [inst EXCEPT ![v] = [k |-> "refused", anchor |-> a, good |-> TRUE, store |-> st]]
   /\ UNCHANGED <<W, cache, val, wire, out, nval>>
   /\ Track
 
@@ -160,17 +202,20 @@ Validate(v, p) ==
   /\ Track
 
 \* the network answers the certificate Interests for name n pending on application a as the world says. One Data
-\* (or Nack) satisfies every pending Interest of that name on that application (its table of pending Interests is
-\* keyed by name). No answer = the Interest lifetime passes; it passes for every validation that is waiting, so that
+\* satisfies every pending Interest on that application that it can satisfy (Sat: the Interests for its name and for
+\* its full name); a Nack answers the Interests of exactly the name it carries. (Bound: a packet is not delivered while
+\* an Interest for the plain name is pending that the world answers with ANOTHER packet of that name.)
+\* No answer = the Interest lifetime passes; it passes for every validation that is waiting, so that
 \* step is taken only when the world gives none of them an answer, and ends all their fetches (bound of the model).
 Waiting == {u \in Slots : val[u].k = "run" /\ val[u].pc = "fetching"}
 Wanted(u) == El(Top(val[u].stack)).kl
 FetchReply(a, n, kind) ==
   /\ Quiescent
-  /\ LET hit == {u \in Waiting : AppOf(I(u)) = a /\ Wanted(u) = n} IN
-       /\ hit # {} /\ kind = Serv(n)
+  /\ LET hit == {u \in Waiting : AppOf(I(u)) = a /\ Wanted(u) \in (IF kind = "yes" THEN Sat(n) ELSE {n})} IN
+       /\ {u \in hit : Wanted(u) = n} # {} /\ kind = Serv(n)
        /\ \/ /\ kind = "yes"        \* the fetched certificate is validated
-             /\ val' = [u \in Slots |-> IF u \in hit THEN [val[u] EXCEPT !.stack = Append(@, n), !.pc = "check"] ELSE val[u]]
+             /\ \A u \in hit : SameP(Wanted(u), n)
+             /\ val' = [u \in Slots |-> IF u \in hit THEN [val[u] EXCEPT !.stack = Append(@, Wanted(u)), !.pc = "check"] ELSE val[u]]
           \/ /\ kind = "nack"
              /\ val' = [u \in Slots |-> IF u \in hit THEN [val[u] EXCEPT !.pc = "reject"] ELSE val[u]]
           \/ /\ kind \in {"timeout", "absent"}
@@ -186,8 +231,15 @@ Heal(n) ==
   /\ Quiescent /\ \A v \in Slots : val[v] = NoVal
   /\ W.epoch < MaxHeal
   /\ n \in DOMAIN W.certs /\ W.certs[n].kl # n /\ W.certs[n].serv \in {"nack", "timeout", "absent"}
-  /\ W' = [W EXCEPT !.certs[n].serv = "yes", !.epoch = @ + 1]
+  /\ W' = [W EXCEPT !.certs = [m \in DOMAIN @ |-> IF SameP(m, n) THEN [@[m] EXCEPT !.serv = "yes"] ELSE @[m]], !.epoch = @ + 1]
   /\ UNCHANGED <<inst, cache, val, wire, out, nval, dev, nodev>>
+  /\ Track
+
+\* a key storage supplied by the application loses what it holds (eviction, restart of what backs it, ...): any time
+Forget(v) ==
+  /\ Quiescent /\ inst[v].k = "ok" /\ inst[v].store \in AppStores /\ cache[v] # <<>>
+  /\ cache' = [cache EXCEPT ![v] = <<>>]
+  /\ UNCHANGED <<W, inst, val, wire, out, nval, dev, nodev>>
   /\ Track
 
 (* internal steps *)
@@ -207,13 +259,14 @@ UseAnchor(v) ==
   /\ UNCHANGED <<W, inst, cache, wire, out, nval, dev, nodev>>
   /\ Track
 
-Others(v) == UNION {cache[u] : u \in Inst \ {v}}
+\* (the storage that is one object for all instances is the one of the default argument)
+Others(v) == IF inst[v].store # "default" THEN {} ELSE UNION {CacheSet(u) : u \in {x \in Inst \ {v} : inst[x].store = "default"}}
 UseCache(v) ==
   /\ val[v].k = "run" /\ val[v].pc = "key"
   /\ LET n == El(Top(val[v].stack)).kl
-         app == n \notin cache[I(v)] /\ n \in Others(I(v)) IN
+         app == n \notin CacheSet(I(v)) /\ n \in Others(I(v)) IN
        /\ n # inst[I(v)].anchor
-       /\ \/ /\ n \in cache[I(v)] /\ UNCHANGED <<dev, nodev>>
+       /\ \/ /\ n \in CacheSet(I(v)) /\ UNCHANGED <<dev, nodev>>
           \/ \* DEVIATION: the key storage is one object shared by all instances (default argument)
              Dev("SharedCache", app)
        /\ val' = [val EXCEPT ![v].pc = "verify", ![v].vk = W.certs[n].key]
@@ -226,9 +279,9 @@ Fetch(v) ==
   /\ LET st == val[v].stack
          n == El(Top(st)).kl
          onStack == \E j \in 2..Len(st) : st[j] = n        \* already being resolved in this validation: a loop
-         shared == n \notin cache[I(v)] /\ n \in Others(I(v))
+         shared == n \notin CacheSet(I(v)) /\ n \in Others(I(v))
          nd0 == IF shared /\ "SharedCache" \in Allowed THEN nodev \cup {"SharedCache"} ELSE nodev IN
-       /\ n # inst[I(v)].anchor /\ n \notin cache[I(v)]
+       /\ n # inst[I(v)].anchor /\ n \notin CacheSet(I(v))
        /\ ~(shared /\ ("SharedCache" \in dev \/ "SharedCache" \in Forced))   \* with a shared storage the code takes UseCache
        /\ \/ /\ ~onStack
              /\ wire' = [wire EXCEPT ![AppOf(I(v))] = Append(@, n)]
@@ -261,7 +314,7 @@ VerifySig(v) ==
                 /\ val' = [val EXCEPT ![v].pc = "accept"] /\ UNCHANGED cache
              \/ \* a fetched certificate is valid: cache its key, resume the element it certifies
                 /\ good /\ Len(st) > 1
-                /\ cache' = [cache EXCEPT ![I(v)] = @ \cup {x}]
+                /\ cache' = [cache EXCEPT ![I(v)] = Saved(I(v), x)]
                 /\ val' = [val EXCEPT ![v].stack = SubSeq(st, 1, Len(st) - 1), ![v].vk = W.certs[x].key]
        \/ \* DEVIATION: a signature to be verified under an Ed25519 key is never accepted (whatever the other keys of the chain are)
           /\ Dev("Ed25519Unsupported", good /\ IsEd(val[v].vk))
@@ -279,14 +332,19 @@ Verdict(v) ==
 
 \* every name a world may use (model-checked worlds and recorded random worlds); a constant set, so that TLC
 \* labels the transitions with the action and its parameters
-NameUniverse == {"RA", "RB", "RAx", "RAf", "RAo", "RAh", "RAd", "ROp", "A1", "A1b", "A2", "A3", "X", "B1", "Z",
-                 "R1", "R2", "R3", "R4", "R5", "R6", "C1", "C1b", "C2b", "C2", "C3", "C4", "C5", "C6", "C7", "C8",
-                 "P1", "P1r", "A1r", "P2", "P3", "P4", "P5", "P6", "P7", "P8", "P9", "P10"}
-AppUniverse == {"app", "v1", "v2", "v3", "v4"}
-Env == \/ \E v \in Inst, a \in NameUniverse : NewValidator(v, a)
+\* (the names of the model-checked worlds; the recorded random worlds are judged by TrustChainTrace, which applies the
+\* recorded stimuli directly and does not enumerate this set). PinNames: full names / key names of certificates (W.alias):
+\* <certificate>p = full name of the packet served under the plain name, <certificate>w = full name with the digest of a
+\* packet nobody serves, <certificate>y = full name of another packet of that certificate name, <certificate>k = key name
+PinNames == {"RAp", "RAw", "RAy", "RAk", "A1p", "A1w", "A1y", "A1k", "A2p", "A2w", "A2y", "A2k"}
+NameUniverse == {"RA", "RB", "RAx", "RAf", "RAo", "RAh", "RAd", "ROp", "A1", "A1b", "A2", "A3", "X", "B1",
+                 "P1", "P1r", "A1r", "P2", "P3"} \cup PinNames
+AppUniverse == {"app", "v1", "v2"}
+Env == \/ \E v \in Inst, a \in NameUniverse, st \in StoreKinds : NewValidator(v, a, st)
        \/ \E v \in Slots, p \in NameUniverse : Validate(v, p)
        \/ \E a \in AppUniverse, n \in NameUniverse, kind \in {"yes", "nack", "timeout", "absent"} : FetchReply(a, n, kind)
        \/ \E n \in NameUniverse : Heal(n)
+       \/ \E v \in Inst : Forget(v)
 Internal == \E v \in Slots : CheckSchema(v) \/ UseAnchor(v) \/ UseCache(v) \/ Fetch(v) \/ VerifySig(v) \/ Verdict(v)
 Next == Env \/ Internal
 Fair == /\ \A v \in Slots : WF_vars(CheckSchema(v) \/ UseAnchor(v) \/ UseCache(v) \/ Fetch(v) \/ VerifySig(v) \/ Verdict(v))
@@ -297,7 +355,8 @@ FairSpec == Spec /\ Fair
 Terminates == \A v \in Slots : (val[v].k = "run") ~> (val[v] = NoVal)
 
 TypeOK == /\ \A k \in DOMAIN W.alg : W.alg[k] \in KeyAlgs
-          /\ \A v \in Inst : inst[v].k \in {"none", "ok", "refused"}
+          /\ \A v \in Inst : inst[v].k \in {"none", "ok", "refused"} /\ inst[v].store \in StoreKinds \cup {"none"}
+          /\ \A v \in Inst : Len(cache[v]) <= Cap(inst[v].store) /\ Cardinality(CacheSet(v)) = Len(cache[v])
           /\ \A v \in Slots : val[v].k = "run" => val[v].pc \in {"check", "key", "fetching", "verify", "accept", "reject", "diverged"}
           /\ dev \subseteq (Allowed \cup Forced) /\ nodev \subseteq Allowed
 StackBounded == \A v \in Slots : val[v].k = "run" => Len(val[v].stack) <= MaxChain + 1
@@ -342,6 +401,20 @@ Params(maxd) ==
   \* and names A1r. Both must be rejected - also after the genuine element was validated by the same or another instance.
   \cup (IF maxd >= 2 THEN {[sch |-> "strict", d |-> 2, dev |-> x, i |-> 1] : x \in {"replaypkt", "replaycert"}} ELSE {})
 
+\* HOW A LINK NAMES ITS SIGNER (W.alias), at any link 1..d; the link is otherwise genuine.
+\*  "pin"      the signer's FULL name (digest of the packet that is served under the plain name): the chain exists - unless
+\*             the signer is the anchor (see INTERPRETATION at W.alias);
+\*  "pinwrong" the signer's name + the digest of a packet nobody serves: the named certificate cannot be retrieved;
+\*  "pintwin"  the full name of ANOTHER packet <signer>y of the signer's certificate name, genuinely issued by the same
+\*             issuer for another key kO, retrievable under its full name; the signed element is signed with kO: the chain
+\*             exists through <signer>y (and only for an element that pins it);
+\*  "pinsubst" names <signer>y as well, but is signed with the key of the packet served under the plain name: no chain;
+\*  "keyname"  the signer's KEY name: no certificate rule of the schema matches it.
+\* P2 names the leaf certificate by its plain name: the same certificate under two names in one history.
+PinDevs == {"pin", "pinwrong", "pintwin", "pinsubst", "keyname"}
+PinParams(maxd) == {[sch |-> "strict", d |-> t[1], dev |-> t[2], i |-> t[3]] : t \in {t \in (1..maxd) \X PinDevs \X (1..maxd) : t[3] <= t[1]}}
+PinSuffix(x) == IF x = "pin" THEN "p" ELSE IF x = "pinwrong" THEN "w" ELSE IF x = "keyname" THEN "k" ELSE "y"
+
 MCWorld(q) ==
   LET d == q.d
       peer == q.sch = "peer"
@@ -354,14 +427,17 @@ MCWorld(q) ==
       baseKl(k) == AName(k - 1)
       baseSig(k) == AKey(k - 1)
       \* key locator / signature of an element after the deviation
+      pinDev == q.dev \in PinDevs
+      pinName == IF pinDev THEN signer \o PinSuffix(q.dev) ELSE "none"
       klOf(n, kl0) == IF n # signed THEN kl0
+                      ELSE IF pinDev THEN pinName
                       ELSE IF q.dev \in {"nokl", "digest"} THEN "none"
                       ELSE IF q.dev = "shape" THEN "X"
                       ELSE IF q.dev = "loop" THEN leafName
                       ELSE kl0
       sigOf(n, sig0) == IF n # signed THEN sig0
                         ELSE IF q.dev = "forged" THEN "forged"
-                        ELSE IF q.dev = "subst" THEN "kO"
+                        ELSE IF q.dev \in {"subst", "pintwin"} THEN "kO"
                         ELSE IF q.dev = "digest" THEN "digest"
                         ELSE IF q.dev \in {"hmac", "unknownsig", "hmacpub", "digestkl", "wrongtype", "wrongcurve"} THEN q.dev
                         ELSE IF q.dev = "loop" THEN leafKey
@@ -393,19 +469,13 @@ MCWorld(q) ==
       opCert == IF q.sch = "two" THEN [n \in {"ROp"} |-> [key |-> "kRA", kl |-> "ROp", sig |-> "kRA", serv |-> "absent"]]
                 ELSE [n \in {} |-> 0]
       pshape == IF peer THEN "d2" ELSE DShape(d)
-  IN [schema |-> IF peer THEN Peer ELSE IF q.sch = "two" THEN Strict \cup {<<"r1", "oproot">>}
-                 ELSE IF q.sch = "twin" THEN Strict \cup {<<"e1", "root">>} ELSE Strict,
-      roots |-> IF q.sch = "two" THEN {"root", "oproot"} ELSE IF q.sch = "twin" THEN {"root", "root2"} ELSE {"root"},
-      covers |-> [sh \in {"root", "oproot"} |-> IF sh = "oproot" THEN {"oproot"}
-                                                ELSE IF q.sch = "twin" THEN {"root", "root2"} ELSE {"root"}],
-      twin |-> IF twinDev THEN [n \in {"A1b"} |-> "A1"] ELSE [n \in {} |-> ""],
-      replay |-> IF q.dev = "replaypkt" THEN [n \in {"P1r"} |-> "P1"]
-                 ELSE IF q.dev = "replaycert" THEN [n \in {"A1r"} |-> "A1"] ELSE [n \in {} |-> ""],
-      alg |-> [k \in {} |-> ""],         \* every key "p256"; AlgWorld assigns algorithms by role
-      epoch |-> 0,
-      sch |-> q.sch,
-      q |-> q,
-      shape |-> [n \in {"RA", "RB", "RAf", "RAo", "RAh", "RAd", "RAx", "ROp", "X", "A1", "A1b", "A1r", "A2", "A3", "B1", "P1", "P1r", "P2", "P3", "none"} |->
+      signerRec == IF ~pinDev THEN [key |-> "", kl |-> "", sig |-> "", serv |-> ""]
+                   ELSE IF signer = "RA" THEN anchors["RA"] ELSE chainCerts[signer]
+      pinCert == IF q.dev = "pin" THEN [n \in {pinName} |-> signerRec]
+                 ELSE IF q.dev \in {"pintwin", "pinsubst"}
+                 THEN [n \in {pinName} |-> [key |-> "kO", kl |-> signerRec.kl, sig |-> IF signer = "RA" THEN "kO" ELSE signerRec.sig, serv |-> "yes"]]
+                 ELSE [n \in {} |-> 0]
+      baseShape == [n \in {"RA", "RB", "RAf", "RAo", "RAh", "RAd", "RAx", "ROp", "X", "A1", "A1b", "A1r", "A2", "A3", "B1", "P1", "P1r", "P2", "P3", "none"} |->
                    IF n \in {"RA", "RB", "RAf", "RAo", "RAh", "RAd"} THEN "root"
                    ELSE IF n = "ROp" THEN (IF q.sch = "two" THEN "oproot" ELSE "nil")
                    ELSE IF n = "A1b" THEN (IF twinDev THEN "c1" ELSE "nil")
@@ -415,8 +485,25 @@ MCWorld(q) ==
                    ELSE IF n = "A1" THEN "c1" ELSE IF n = "A2" THEN (IF peer THEN "c1" ELSE "c2")
                    ELSE IF n = "A3" THEN (IF peer THEN "c1" ELSE "c3")
                    ELSE IF n = "B1" THEN "c1" ELSE IF n = "P3" THEN "d2"
-                   ELSE IF n \in {"P1", "P2"} THEN pshape ELSE "nil"],
-      certs |-> chainCerts @@ xCert @@ anchors @@ bCert @@ twinCert @@ opCert @@ replayCert,
+                   ELSE IF n \in {"P1", "P2"} THEN pshape ELSE "nil"]
+  IN [schema |-> IF peer THEN Peer ELSE IF q.sch = "two" THEN Strict \cup {<<"r1", "oproot">>}
+                 ELSE IF q.sch = "twin" THEN Strict \cup {<<"e1", "root">>} ELSE Strict,
+      roots |-> IF q.sch = "two" THEN {"root", "oproot"} ELSE IF q.sch = "twin" THEN {"root", "root2"} ELSE {"root"},
+      covers |-> [sh \in {"root", "oproot"} |-> IF sh = "oproot" THEN {"oproot"}
+                                                ELSE IF q.sch = "twin" THEN {"root", "root2"} ELSE {"root"}],
+      twin |-> IF twinDev THEN [n \in {"A1b"} |-> "A1"] ELSE [n \in {} |-> ""],
+      replay |-> IF q.dev = "replaypkt" THEN [n \in {"P1r"} |-> "P1"]
+                 ELSE IF q.dev = "replaycert" THEN [n \in {"A1r"} |-> "A1"] ELSE [n \in {} |-> ""],
+      alg |-> [k \in {} |-> ""],         \* every key "p256"; AlgWorld assigns algorithms by role
+      fp |-> [n \in {} |-> ""],          \* every certificate "pos"; FpWorld assigns FreshnessPeriods
+      alias |-> IF pinDev THEN [n \in {pinName} |-> [base |-> signer, pk |-> IF q.dev = "pin" THEN signer ELSE IF q.dev = "keyname" THEN "none" ELSE pinName,
+                                                      kind |-> IF q.dev = "keyname" THEN "key" ELSE "full"]]
+                ELSE [n \in {} |-> 0],
+      epoch |-> 0,
+      sch |-> q.sch,
+      q |-> q,
+      shape |-> (IF pinDev THEN [n \in {pinName} |-> IF q.dev = "keyname" THEN "kn" ELSE baseShape[signer]] ELSE [n \in {} |-> ""]) @@ baseShape,
+      certs |-> chainCerts @@ xCert @@ anchors @@ bCert @@ twinCert @@ opCert @@ replayCert @@ pinCert,
       pkts |-> [n \in (IF q.dev = "replaypkt" THEN {"P1", "P1r", "P2", "P3"} ELSE {"P1", "P2", "P3"}) |->
                   IF n = "P1r" THEN [kl |-> leafName, sig |-> "replay"]
                   ELSE IF n = "P2" /\ q.dev = "replaycert" THEN [kl |-> "A1r", sig |-> "kO"]
@@ -428,6 +515,26 @@ MCWorlds(maxd) == {MCWorld(q) : q \in Params(maxd)}
 W3 == MCWorlds(3)
 W4 == MCWorlds(4)
 W2 == MCWorlds(2)
+WPin2 == {MCWorld(q) : q \in PinParams(2)}
+WPin3 == {MCWorld(q) : q \in PinParams(3)}
+WAll4 == W4 \cup WPin3
+\* two validations in progress at once that name one certificate differently
+WPinO == {MCWorld([sch |-> "strict", d |-> 2, dev |-> x, i |-> 1]) : x \in {"pin", "pintwin", "pinwrong"}}
+\* key storages: clean chains, a second leaf certificate under the same anchor, one certificate under two names, fetch faults
+WStore == {MCWorld(q) : q \in {[sch |-> "strict", d |-> 2, dev |-> "none", i |-> 0], [sch |-> "strict", d |-> 3, dev |-> "none", i |-> 0],
+                                [sch |-> "strict", d |-> 2, dev |-> "twinforged", i |-> 1], [sch |-> "strict", d |-> 2, dev |-> "pin", i |-> 1],
+                                [sch |-> "strict", d |-> 3, dev |-> "forged", i |-> 1], [sch |-> "strict", d |-> 2, dev |-> "nack", i |-> 1]}}
+WStorePin == WStore \cup WPin2
+MCStoreDefault(v) == {"default"}
+MCStoreQ(v) == {"memory", "empty", "fifo1", "app"}
+MCStoreT(v) == StoreKinds
+\* FreshnessPeriod of the certificates on the way (A1, A2 of the clean chain RA - A1 - A2 - P1; the anchor is handed over, not fetched)
+FpWorld(q, f) == [MCWorld(q) EXCEPT !.fp = [n \in {"RA", "A1", "A2"} |-> IF n = "RA" THEN f[1] ELSE IF n = "A1" THEN f[2] ELSE f[3]],
+                                    !.q = [sch |-> q.sch, d |-> q.d, dev |-> q.dev, i |-> q.i, fp |-> f]]
+FpKinds == {"pos", "zero", "none"}
+WFresh == {FpWorld([sch |-> "strict", d |-> 3, dev |-> "none", i |-> 0], f) : f \in {"pos"} \X FpKinds \X FpKinds}
+          \cup {FpWorld([sch |-> "strict", d |-> 2, dev |-> x, i |-> 1], <<"zero", "none", "pos">>) : x \in {"none", "forged"}}
+          \cup {FpWorld([sch |-> "strict", d |-> 2, dev |-> "none", i |-> 0], <<"none", "zero", "pos">>)}
 \* small world sets for the executor: learning which deviations the code has, orders of validations
 \* fetch faults that Heal can repair
 WHeal == {MCWorld(q) : q \in {[sch |-> "strict", d |-> 2, dev |-> "nack", i |-> 1], [sch |-> "strict", d |-> 2, dev |-> "timeout", i |-> 1],
@@ -495,6 +602,16 @@ W_AcceptMixedAlgs == ~(\E i \in 1..Len(out) : out[i].r = "T" /\ Cardinality({Alg
 \* ... and rejected because of one link, under a P-521 / RSA-2048 / Ed25519 key, that does not verify
 W_RejectBigKeyLink == ~(\E i \in 1..Len(out) : out[i].r = "F" /\ "ka" \in DOMAIN W.q /\ W.q.dev = "forged"
                                                 /\ AlgOf(W.certs[W.pkts[out[i].p].kl].key) \in {"p521", "rsa2048", "ed"})
+\* a packet that names its signer by full name is accepted; one that pins another packet of the signer's name as well
+W_PinAccept == ~(\E i \in 1..Len(out) : out[i].r = "T" /\ W.q.dev = "pin" /\ El(out[i].p).kl \in DOMAIN W.alias)
+W_PinTwinAccept == ~(\E i \in 1..Len(out) : out[i].r = "T" /\ W.q.dev = "pintwin" /\ El(out[i].p).kl \in DOMAIN W.alias)
+\* one Data satisfies two validations that name it differently, both accepted
+W_PinBoth == ~(Len(out) = 2 /\ out[1].r = "T" /\ out[2].r = "T" /\ W.q.dev = "pin" /\ \E a \in Apps : Len(wire[a]) = 2 /\ wire[a][1] # wire[a][2])
+\* a storage that keeps nothing / too little: the same certificate fetched again, both packets accepted
+W_Refetch == ~(\E a \in Apps : Len(wire[a]) >= 2 /\ wire[a][1] = wire[a][Len(wire[a])] /\ Len(out) = 2 /\ out[1].r = "T" /\ out[2].r = "T")
+\* (one certificate under two names, three validations: the third fetch happens only because the entry was evicted)
+W_Evicted == ~(\E v \in Inst : inst[v].store = "fifo1" /\ Len(out) = 3 /\ (\A i \in 1..3 : out[i].r = "T") /\ Len(wire[AppOf(v)]) = 3)
+W_Forgot == ~(\E v \in Inst : inst[v].store = "app" /\ Len(out) = 2 /\ out[1].r = "T" /\ out[2].r = "T" /\ out[1].p = out[2].p /\ Len(wire[AppOf(v)]) = 2)
 W_TwoInFlight == ~(\A v \in Slots : val[v].k = "run" /\ val[v].pc = "fetching")
 \* two validations of ONE instance wait for the same certificate, and both end accepted
 W_SameInstanceTwice == ~(\E v \in Inst : Cardinality({i \in 1..Len(out) : out[i].v = v /\ out[i].r = "T"}) >= 2
